@@ -51,7 +51,9 @@ pub fn corpus_program(kind: &str, idx: u64) -> (Program, Opts) {
         "pad" => crate::mon_c03::padded_program(idx),
         "wild" => gen_program("wild", idx, &cfg_wild(false)),
         "wildsplit" => gen_program("wildsplit", idx, &cfg_wild(true)),
-        _ => stress_program(idx, &crate::mon_c01::cfg_c01()),
+        // (no monitor that uses this corpus judges what the programs compute: signed relational
+        // operators, a recorded C01 family, are part of half of the label-stress programs)
+        _ => stress_program(idx, &GenCfg { excl_signed_relational: idx % 2 == 0, ..crate::mon_c01::cfg_c01() }),
     };
     (p, o)
 }
